@@ -46,6 +46,9 @@ def check(ctx):
     ctx.order(SUB, ao("store", P + ".wait_co"), Call(re.escape(C) + "::set_co"), "publish-co-before-cancel-registration",
               "the coroutine is in wait_co before the cancel side is given a handle to that slot", rule="R-SLOT")
     slot_waker(ctx, C + "::cancel", atomic("fetch_or", C + ".state"), ao("take", C + ".co"), "cancel", "CancelImpl::cancel")
+    ctx.must_follow(C + "::cancel", atomic("fetch_or", C + ".state"), Call(r"may::cancel::CancelIo::cancel|<.* as may::cancel::CancelIo>::cancel", transitive=False), "cancel-always-proceeds",
+                    "cancel() always goes on to wake the target after setting the bit, also when the bit was already set: the subscribers' own re-check calls cancel() with the bit set "
+                    "(a cancel that landed during registration is delivered by that second call)")
     ctx.order(C + "::cancel", ao("take", C + ".co"), Call(r"may::yield_now::set_co_para"), "take-then-inject",
               "the Canceled result is injected only into a coroutine obtained by take()", rule="R-SLOT")
     ctx.order(C + "::cancel", Call(r"may::yield_now::set_co_para"), Call(r"may::scheduler::Scheduler::schedule", transitive=False), "inject-then-schedule",
